@@ -93,6 +93,19 @@ class SymClient(Client):
     def sym(self, e, env: Dict, ver: int, ctx: Ctx, depth: Optional[int] = None):
         d = self.depth(ctx) if depth is None else depth
 
+        def lam(params, body):
+            saved = {p_: env.get((d, p_)) for p_ in params}
+            for k_, p_ in enumerate(params):
+                env[(d, p_)] = ("arg", k_)
+            try:
+                return ("lambda", len(params), go(body))
+            finally:
+                for p_, v_ in saved.items():
+                    if v_ is None:
+                        env.pop((d, p_), None)
+                    else:
+                        env[(d, p_)] = v_
+
         def go(x):
             if x is None:
                 return ("c", None)
@@ -106,7 +119,16 @@ class SymClient(Client):
                 t = env.get((d, x.id))
                 if t is not None:
                     return t
+                # a nested function that is one `return <expr>`: the same value as the lambda
+                nf = getattr(ctx.func, "nested", {}).get(x.id) if ctx is not None else None
+                if nf is not None:
+                    body = [st for st in nf.node.body if not (isinstance(st, ast.Expr) and isinstance(st.value, ast.Constant))]
+                    if len(body) == 1 and isinstance(body[0], ast.Return) and body[0].value is not None \
+                            and not nf.node.args.vararg and not nf.node.args.kwarg:
+                        return lam([a.arg for a in nf.node.args.posonlyargs + nf.node.args.args], body[0].value)
                 return ("free", x.id)
+            if isinstance(x, ast.Lambda) and not x.args.vararg and not x.args.kwarg:
+                return lam([a.arg for a in x.args.posonlyargs + x.args.args], x.body)
             if isinstance(x, ast.Attribute):
                 b = go(x.value)
                 if b == ("self",) and ("h", x.attr) in env:
